@@ -135,6 +135,12 @@ def _build_pool(cls, param, kind):  # pylint: disable=too-many-branches
             if isinstance(klass, type):
                 for _, obj in corpus.objects(core.class_path(klass)):
                     pool.append(obj)
+                # items derived from the seeds by editing fields (e.g. an SCT with non-empty extensions)
+                for raw in [v for v in corpus.variants(core.class_path(klass)) if len(v) <= 2048][:12]:
+                    try:
+                        pool.append(klass.parse_exact_size(raw))
+                    except Exception:  # pylint: disable=broad-except
+                        continue
         name = cls.__name__
         if name == 'TlsCertificates':
             from cryptoparser.tls.subprotocol import TlsCertificate
